@@ -82,7 +82,9 @@ def run(ctx, rep):
     rep.extra["reader_classes"] = tab.classes
     rep.extra["reader_transitions"] = len(tab.delta)
     rep.floor("C04.reader transitions", len(tab.delta), 40)
-    _codecs.report_roundtrip(rep, "C04.roundtrip", "binary(W1,R)", tab, nrows, wf.span, wf.path)
+    # the binary record is '{id}{args}\0' (checked under C04.framing below): NUL frames records, so a NUL inside an argument ends the record early
+    bin_sep = "\x00" if [t for t in _codecs.final_template(wf) if t and t[-1] == "\x00"] else None
+    _codecs.report_roundtrip(rep, "C04.roundtrip", "binary(W1,R)", tab, nrows, wf.span, wf.path, record_sep=bin_sep)
 
     # ---- framing -------------------------------------------------------------------------------
     T = opcodes.tables(F)
